@@ -697,6 +697,51 @@ def keeper_@I@(v):  # nt
     third = [second]  # nt
     return sorted(seen), len(seen), third  # nt
 ''', 'keeper_@I@(@A@)'),
+    ('gc_off', '''
+def gc_off_@I@(v):
+    import gc
+    was = gc.isenabled()
+    gc.disable()
+    try:
+        data = [[i, str(i)] for i in range(v + 3)]
+        total = len(data)
+        still_off = not gc.isenabled()
+    finally:
+        if was:
+            gc.enable()
+    return total, still_off
+''', 'gc_off_@I@(@A@)'),
+    ('slots_and_dict', '''
+class SlotBase_@I@:
+    __slots__ = ("kept",)
+
+
+class SlotSub_@I@(SlotBase_@I@):
+    pass
+
+
+def slots_and_dict_@I@(v):
+    item = SlotSub_@I@()
+    item.kept = v
+    item.extra = "x"
+    names = sorted(vars(item))
+    again = sorted(item.__dict__)
+    return names, again, item.kept
+''', 'slots_and_dict_@I@(@A@)'),
+    ('warn_once', '''
+def warn_once_@I@(v):
+    import warnings
+    shown = []
+    original = warnings.showwarning
+    warnings.showwarning = lambda message, *rest, **kw: shown.append(str(message))
+    try:
+        for i in range(3):
+            warnings.warn("old call %d" % v, UserWarning)
+            marker = i
+    finally:
+        warnings.showwarning = original
+    return len(shown)
+''', 'warn_once_@I@(@A@)'),
     ('method_exc', '''
 class Acct_@I@:
     def __init__(self, bal):
